@@ -24,7 +24,27 @@ a fresh model, on the same model again, inside call sequences (seed; A; B twice)
 by re-seeding, with full_output False/True; different seeds => different raw outputs when the recorded run makes a
 coincidence less likely than 1e-12; Y == mean(Y_all) to 1e-12 of the largest term (exact rational reference mean), for
 both random-parameter input forms, both entry points, n = 1..6.
+
+Histories and forms (second seeded round; the quantifier of the property is over inputs AND histories):
+  * STOCH cases hand the initial state / time over in every accepted form (list / tuple / ndarray, int / float / int32, numpy
+    scalar kinds for t0) and compare every result with the harness's OWN COPY of the earlier one; every returned object is kept
+    and compared with its copy again at the end (`result-overwritten`); an object the caller handed in that was written to is a
+    tag (`input-modified:*`), wrong values that follow from it are what is judged;
+  * HIST cases (both entry families): one reference instance makes "seed; target call"; other instances go through HISTORIES
+    (other initial values / parameters / tau configuration / stochastic dicts assigned and replaced by plain numbers or the
+    other way round / other grids, iteration counts, entry points / integrate on another grid / a stochastic run / a sibling
+    instance simulated in between / deepcopy) that END IN THE TARGET CONFIGURATION, then "seed; target call" twice: the outputs
+    must be those of the reference (values) and of each other (bitwise), whatever preceded; the setter of `parameters` is tied
+    to the Lean setter model (`Seed.setParams`, driver op `seed_setter`) after every assignment of a history;
+  * SESSION cases: the operation lists of stoch_common.gen_session run by stoch_common.run_session; a call repeated with the
+    first call's configuration, initial values, horizon and seed, and a fresh instance given a call's configuration and seed,
+    must reproduce the result (here a VIOLATION: it is the property's statement).
+The Lean side: `history_irrelevant*` (a previous run leaves nothing but parameter values at positions the dict re-assigns),
+`setter_*` / `history_irrelevant_cleared` / `history_irrelevant_session` (what the setter records depends on the last
+assignments only; plain numbers clear the record; two objects with the same record and the same values outside it give the
+same outputs from the same stream).  Parallel runs (parallel=True) are outside this property: see C05 for their law.
 """
+import copy
 import contextlib
 import io
 import math
@@ -46,13 +66,18 @@ LEAN = {"module": "Pygom.Props.C16",
                      "Pygom.C16.draw_schedule_step", "Pygom.C16.draw_schedule_jump", "Pygom.C16.draw_schedule",
                      "Pygom.C16.draw_schedule_param", "Pygom.C16.jump_is_c04_run", "Pygom.C16.never_starved",
                      "Pygom.C16.history_irrelevant_solve_stochast", "Pygom.C16.solve_determ_fixed_no_draws",
+                     "Pygom.C16.setter_all_clears", "Pygom.C16.setter_random_dict_records", "Pygom.C16.setter_number_dict",
+                     "Pygom.C16.setter_number_dict_covering", "Pygom.C16.run_keeps_record", "Pygom.C16.history_irrelevant_cleared",
+                     "Pygom.C16.history_irrelevant_session", "Pygom.C16.setter_last_assignments_decide",
+                     "Pygom.C16.stale_record_redraws_counterexample",
                      "Pygom.C16.mean_over_n_plus_one_counterexample",
                      "Pygom.C16.no_foreign_requests_primary_only", "Pygom.C16.foreign_source_breaks_counterexample",
                      "Pygom.C16.foreign_retry_breaks_counterexample", "Pygom.C16.mean_is_mean",
                      "Pygom.C16.first_wait_is_min_of_draws", "Pygom.C16.different_first_wait_different_path",
                      "Pygom.C16.different_streams_same_output_counterexample"]}
-BUDGET = {"quick": {"stoch": 500, "param": 300},
-          "thorough": {"stoch": 4000, "param": 3000, "max_steps": 1000, "steps": [30, 80, 200, 400]}}
+BUDGET = {"quick": {"stoch": 330, "param": 180, "hist_stoch": 120, "hist_param": 120, "session": 60},
+          "thorough": {"stoch": 3200, "param": 2400, "hist_stoch": 1200, "hist_param": 1200, "session": 600, "max_steps": 1000,
+                       "steps": [30, 80, 200, 400]}}
 RULE = ("serial calls only (parallel=False). STOCH cases: bounded-rate event models of the shared generator (1-5 states, 1-5 events, "
         "all API routes, derived parameters), integer initial states, x {exact, adaptive tau, fixed tau with steps large enough to be "
         "rejected by the limits}, n = 1..6 iterations, horizon as number / one-element list / grid (list, tuple, array), 30% with "
@@ -60,7 +85,14 @@ RULE = ("serial calls only (parallel=False). STOCH cases: bounded-rate event mod
         "partial dicts, dict order shuffled). PARAM cases: the same models integrated deterministically by simulate_param / "
         "solve_determ with a random-parameter dict (frozen / tuple / mixed), n = 1..6, full_output both ways. Every choice, "
         "including the numpy seeds, derives from the case seed. A STOCH case is non-trivial when the traced call recorded >= 5 "
-        "accepted steps; a PARAM case when the integrations made with different draws differ.")
+        "accepted steps; a PARAM case when the integrations made with different draws differ. Forms: x0 as list / tuple / ndarray of "
+        "int / float / int32 (bare number for one state), t0 as numpy float64 / int64 / float32 (Python numbers 4%: rejected by the "
+        "unchanged tree, tagged), horizon also as numpy float / one-element tuple, n as int / numpy int64, grids as array / list / tuple; "
+        "the second and third instance of a PARAM case were integrated on the same grid / another grid / never. HIST cases: one "
+        "reference instance, two instances with 1 and 2-3 histories (kinds in HIST_STOCH_KINDS / HIST_PARAM_KINDS) each ending in the "
+        "target configuration and followed by 'seed; target call' twice; non-trivial when the reference call recorded >= 5 events "
+        "(stoch) / the runs differ from each other (param). SESSION cases: stoch_common.gen_session (2-4 runs, 60% exact, 30% grids, "
+        "fresh reference for half of the runs, repeat of the first call); non-trivial with >= 2 calls and >= 5 accepted steps.")
 ASSUMPTIONS = ["'different seeds change the outputs' is runtime: numpy maps different seeds to streams whose first consumed draws differ; "
                "checked on raw (scalar-horizon) stochastic output with >= 20 recorded events and a coincidence probability < 1e-12 "
                "computed from the recorded run (a continuous draw, or the product of the Poisson pmfs of the recorded counts), and "
@@ -374,6 +406,18 @@ def build_pdict(desc, rec=None):
 
 
 # ----------------------------------------------------------------------------- cases
+X0_FORMS = ["arr_int", "arr_int", "arr_f64", "arr_f64", "list_int", "list_float", "list_float", "tuple_int", "tuple_float", "arr_i32"]
+T0_FORMS = ["np_f64"] * 6 + ["np_i64"] * 2 + ["np_f32"] * 2
+
+
+def stoch_forms(r, c, py_t0=0.04):
+    """the objects handed to `initial_values`: same numbers, another container / dtype (a Python number as initial time is
+    rejected by the unchanged pygom in `_jump`: kept at a low rate, both runs then raise alike and nothing is judged)"""
+    nS = len(c["x0"])
+    c["sim"]["x0_form"] = r.choice(X0_FORMS + (["scalar"] * 3 if nS == 1 else []))
+    c["sim"]["t0_form"] = r.choice(T0_FORMS) if r.random() >= py_t0 else r.choice(["py_float", "py_int"])
+
+
 def make_cases(rng, tier, budget):
     cases = []
     n_st, n_pa = budget["stoch"], budget["param"]
@@ -388,7 +432,9 @@ def make_cases(rng, tier, budget):
         c["sim"] = SC.sim_settings(r, base, mode, big_tau=(mode == "tau_fixed" and r.random() < 0.7), steps=[5, 10, 20] if mode == "tau_adaptive" else budget.get("steps", [20, 30, 50, 80]))
         t0, T = c["sim"]["t0"], c["sim"]["T"]
         c["n"] = r.randint(1, 6)
-        c["A"] = {"time": r.choice(["float", "float", "float", "list1", "int", "grid"]), "n": c["n"], "exact": mode == "exact"}
+        c["A"] = {"time": r.choice(["float", "float", "np_f64", "list1", "tuple1", "int", "grid", "grid"]), "n": c["n"], "exact": mode == "exact",
+                  "n_form": r.choice(["int", "int", "np_i64"])}
+        stoch_forms(r, c)
         if c["A"]["time"] == "int":
             c["sim"]["T"] = T = float(max(int(t0) + 1, int(math.ceil(T))))
         k = r.randint(3, 7)
@@ -415,17 +461,27 @@ def make_cases(rng, tier, budget):
         c["form"] = r.choice(["frozen", "tuple", "mixed"])
         c["pdict"] = gen_pdict(r, base["meta"]["params"], base["params"], c["form"])
         c["n"] = r.randint(1, 6)
-        c["A"] = {"entry": r.choice(["simulate_param", "solve_determ"]), "n": c["n"]}
+        c["A"] = {"entry": r.choice(["simulate_param", "solve_determ"]), "n": c["n"], "n_form": r.choice(["int", "int", "np_i64"])}
         c["B"] = {"entry": r.choice(["simulate_param", "solve_determ"]), "n": r.randint(1, 3)}
+        c["grid_form"] = r.choice(["array", "array", "list", "tuple"])
+        c["prep"] = r.choice([["other", "none"], ["none", "other"], ["other", "same"], ["same", "other"], ["none", "same"]])
         c["seed2"] = r.randrange(2 ** 31)
         c["seed3"] = r.randrange(2 ** 31)
         cases.append(c)
+    for kind, gen_ in (("hist_stoch", gen_hist_stoch), ("hist_param", gen_hist_param), ("session", gen_session_case)):
+        n = 0
+        while n < budget.get(kind, 0):
+            c = gen_(random.Random(rng.getrandbits(64)), budget)
+            if c is not None:
+                cases.append(c)
+                n += 1
     return cases
 
 
 def search_cases(rng, tier, budget):
     b = dict(budget)
-    b["stoch"], b["param"] = budget["stoch"] * 3, budget["param"] * 3
+    for k in ("stoch", "param", "hist_stoch", "hist_param", "session"):
+        b[k] = budget.get(k, 0) * 3
     return make_cases(rng, tier, b)
 
 
@@ -511,13 +567,74 @@ def time_arg(case, which):
         return {"list": list(g), "tuple": tuple(g), "array": np.array(g, float)}[case["grid_kind"]]
     if k == "list1":
         return [T]
+    if k == "tuple1":
+        return (T,)
+    if k == "np_f64":
+        return np.float64(T)
     if k == "int":
         return int(T)
     return T
 
 
+def n_arg(call):
+    return np.int64(call["n"]) if call.get("n_form") == "np_i64" else int(call["n"])
+
+
+class Res:
+    """what one call returned (.out), what it raised (.err), and the harness's OWN COPY of the output taken at that moment
+    (.snap): later comparisons use the copy, and `Keeper.check` compares the object with its copy after everything else"""
+
+    def __init__(self, pair, label=""):
+        self.out, self.err = pair
+        self.snap = copy.deepcopy(self.out)
+        self.label = label
+
+    def __getitem__(self, i):          # (out, err) pair, as before
+        return (self.out, self.err)[i]
+
+
+class Keeper:
+    def __init__(self):
+        self.kept = []
+
+    def keep(self, pair, label=""):
+        r = pair if isinstance(pair, Res) else Res(pair, label)
+        self.kept.append(r)
+        return r
+
+    def check(self, viol, signature):
+        for r in self.kept:
+            if r.err is None and not same(r.out, r.snap):
+                viol.append({"what": "a result returned earlier was changed by later calls on the model (%s)" % r.label,
+                             "signature": signature, "detail": "returned %s, now reads %s" % (brief(r.snap), brief(r.out))})
+                return False
+        return True
+
+
+def same_values(a, b):
+    """equal shapes and values of two returned pieces (the dtype may follow the FORM of the initial state handed over)"""
+    if isinstance(a, (list, tuple)) or isinstance(b, (list, tuple)):
+        if not (isinstance(a, (list, tuple)) and isinstance(b, (list, tuple))) or len(a) != len(b):
+            return False
+        return all(same_values(x, y) for x, y in zip(a, b))
+    a, b = np.asarray(a), np.asarray(b)
+    return a.shape == b.shape and bool(np.array_equal(a, b))
+
+
+def handed_modified(model, tags):
+    """an object the caller handed in was written to: a side effect the property does not speak about (tag only)"""
+    try:
+        arg = getattr(model, "_verif_x0_arg", None)
+        snap = getattr(model, "_verif_x0_snap", None)
+        if arg is not None and snap is not None and not SC._same_obj(arg, snap):
+            tags.append("input-modified:x0")
+    except Exception:
+        pass
+
+
 def fresh_stoch_model(case, rec=None):
     model = SC.build_model(case)
+    model._verif_x0_snap = copy.deepcopy(model._verif_x0_arg)
     if case.get("pdict"):
         model.parameters = build_pdict(case["pdict"], rec)
     x0 = np.array(case["x0"], float)
@@ -531,7 +648,8 @@ def stoch_call(model, case, which, seed, full=True, reseed=True):
     with caps(model, case[which]["exact"], case.get("max_steps", SC.MAX_STEPS)):
         if reseed:
             np.random.seed(seed)
-        return quiet(model.solve_stochast, time_arg(case, which), case[which]["n"], parallel=False, exact=case[which]["exact"], full_output=full)
+        return Res(quiet(model.solve_stochast, time_arg(case, which), n_arg(case[which]), parallel=False, exact=case[which]["exact"], full_output=full),
+                   "%s, seed %s" % (which, seed))
 
 
 def pidx(model, name):
@@ -548,7 +666,11 @@ def req_close(lean_req, obs, model):
         return False
     if kind == "param":
         return int(par) == pidx(model, obs[1])
-    return SC.close(Fraction(par), obs[1], rel=1e-11, abs_=1e-300)
+    try:
+        return SC.close(Fraction(par), obs[1], rel=1e-11, abs_=1e-300)
+    except OverflowError:
+        # scale 1/rate of a denormal rate: beyond the largest double in the exact model, +inf (or ~1e308) in the code
+        return bool(np.isinf(obs[1]) or abs(obs[1]) > 1e300)
 
 
 # ----------------------------------------------------------------------------- STOCH
@@ -575,7 +697,7 @@ def run_stoch(case):
     cur0 = [float(v) for v in mA._paramValue]
     lr = SC.lean_lims(spec)
     with rec:
-        tr = SC.traced_run(mA, time_arg(case, "A"), exact, seed, iterations=n, max_steps=case.get("max_steps", SC.MAX_STEPS))
+        tr = SC.traced_run(mA, time_arg(case, "A"), exact, seed, iterations=n_arg(A), max_steps=case.get("max_steps", SC.MAX_STEPS))
         end_state = np.random.get_state()
     if tr.error is not None:
         tags.append("raised:" + type(tr.error).__name__)
@@ -689,42 +811,47 @@ def run_stoch(case):
     elif tr.error is None:
         mm("trace:jumps", "%d _jump calls recorded for %d iterations" % (len(tr.jumps), n))
 
-    # ---------------- direct oracle (no Lean)
+    # ---------------- direct oracle (no Lean); every comparison is against the harness's own copy of the earlier result
+    keeper = Keeper()
+
     def check_same(name, got, want, what):
-        if (got[1] is None) != (want[1] is None) or (got[1] is not None and type(got[1]) is not type(want[1])):
+        if (got.err is None) != (want.err is None) or (got.err is not None and type(got.err) is not type(want.err)):
             viol.append({"what": "%s: one run raised, the other did not" % name, "signature": sig(what, ":raise"),
-                         "detail": "%r vs %r" % (got[1], want[1])})
+                         "detail": "%r vs %r" % (got.err, want.err)})
             return False
-        if got[1] is None and not same(got[0], want[0]):
+        if got.err is None and not same(got.snap, want.snap):
             viol.append({"what": "%s: outputs differ after the same np.random.seed" % name, "signature": sig(what),
-                         "detail": "seed %s: %s  vs  %s" % (seed, brief(got[0]), brief(want[0]))})
+                         "detail": "seed %s, x0 handed over as %s, t0 as %s: %s  vs  %s" % (seed, sim.get("x0_form"), sim.get("t0_form"), brief(got.out), brief(want.snap))})
             return False
         return True
 
-    O1p = (O1, tr.error)
+    call = lambda *a, **k: keeper.keep(stoch_call(*a, **k))
+    O1p = keeper.keep((O1, tr.error), "traced run")
+    if tr.error is not None and isinstance(tr.error, AttributeError) and "tolist" in str(tr.error) and sim.get("t0_form") in ("py_float", "py_int"):
+        tags.append("rejected_form:t0:" + sim["t0_form"])
     mB = fresh_stoch_model(case)
-    O2 = stoch_call(mB, case, "A", seed)
+    O2 = call(mB, case, "A", seed)
     check_same("traced run vs fresh model", O2, O1p, "same-seed-differs")
-    O3 = stoch_call(mB, case, "A", seed)
+    O3 = call(mB, case, "A", seed)
     check_same("same model, second time", O3, O2, "same-seed-differs-second-call")
     # full_output=False returns the states of the same run
-    O5 = stoch_call(mB, case, "A", seed, full=False)
-    if O2[1] is None and O5[1] is None and not same(list(O5[0]), list(O2[0][0])):
+    O5 = call(mB, case, "A", seed, full=False)
+    if O2.err is None and O5.err is None and not same(list(O5.out), list(O2.snap[0])):
         viol.append({"what": "full_output=False does not return the states of the full_output=True run of the same seed",
-                     "signature": sig("full-output-differs"), "detail": "%s vs %s" % (brief(O5[0]), brief(O2[0][0]))})
+                     "signature": sig("full-output-differs"), "detail": "%s vs %s" % (brief(O5.out), brief(O2.snap[0]))})
     # different seed
-    O4 = stoch_call(mB, case, "A", case["seed2"])
+    O4 = call(mB, case, "A", case["seed2"])
     rule = (form == "raw" and tr.error is None and accepted >= 20 and (continuous or logp < math.log(1e-12))
             and not any(j["truncated"] for j in tr.jumps))
     if rule:
         tags.append("different-seed-checked")
-        if O4[1] is None and O2[1] is None and same(O4[0], O2[0]):
+        if O4.err is None and O2.err is None and same(O4.out, O2.snap):
             viol.append({"what": "two different seeds give identical outputs", "signature": sig("different-seed-same"),
-                         "detail": "seeds %s and %s, %d recorded events: %s" % (seed, case["seed2"], accepted, brief(O2[0]))})
+                         "detail": "seeds %s and %s, %d recorded events: %s" % (seed, case["seed2"], accepted, brief(O2.snap))})
     # histories: seed; A; B   twice on the same model, then on a fresh model after a different earlier run
     def seq(model, first_seed):
-        a = stoch_call(model, case, "A", first_seed)
-        b = stoch_call(model, case, "B", None, reseed=False)        # continues the stream where A left it
+        a = call(model, case, "A", first_seed)
+        b = call(model, case, "B", None, reseed=False)        # continues the stream where A left it
         return a, b
     a1, b1 = seq(mB, seed)
     a2, b2 = seq(mB, seed)
@@ -732,29 +859,61 @@ def run_stoch(case):
     if check_same("seed; A; B repeated (A)", a2, a1, "history:sequence-A"):
         check_same("seed; A; B repeated (B)", b2, b1, "history:sequence-B")
     mC = fresh_stoch_model(case)
-    stoch_call(mC, case, "B", case["seed3"])                       # a different earlier run
+    call(mC, case, "B", case["seed3"])                             # a different earlier run
     a3, b3 = seq(mC, seed)                                          # ... followed by re-seeding
     if check_same("fresh model after a different earlier run (A)", a3, a1, "history:after-different-run-A"):
         check_same("fresh model after a different earlier run (B)", b3, b1, "history:after-different-run-B")
+    # the same numbers handed over in the plainest form (integer ndarray, numpy float64 time): the same path
+    if sim.get("x0_form") not in (None, "arr_int") or sim.get("t0_form") not in (None, "np_f64"):
+        mD = fresh_stoch_model(dict(case, sim=dict(sim, x0_form="arr_int", t0_form="np_f64")))
+        O6 = call(mD, case, "A", seed)
+        if O6.err is None and O2.err is None and not same_values(O6.out, O2.snap):
+            viol.append({"what": "the same initial values handed over in another form give another path under the same seed",
+                         "signature": sig("form-of-initial-values"),
+                         "detail": "x0 as %s / t0 as %s: %s ; as integer ndarray / float64: %s" % (sim.get("x0_form"), sim.get("t0_form"), brief(O2.snap), brief(O6.out))})
+        handed_modified(mD, tags)
+    keeper.check(viol, sig("result-overwritten"))
+    for m_ in (mA, mB, mC):
+        handed_modified(m_, tags)
+    tags += ["x0_form:" + str(sim.get("x0_form")), "t0_form:" + str(sim.get("t0_form"))]
     return {"nontrivial": accepted >= 5 and tr.error is None, "mismatches": mism, "violations": viol, "tags": tags,
             "sample": {"kind": "stoch", "spec": spec, "x0": case["x0"], "params": case["params"], "sim": sim, "A": A, "B": B,
                        "pdict": case.get("pdict"), "recorded_draws": len(body), "accepted_steps": accepted}}
 
 
 # ----------------------------------------------------------------------------- PARAM
-def fresh_param_model(case, rec=None):
+def other_grid(case):
+    """a grid of another length (and another end) than the case's: what a model may have been integrated on before"""
+    g = [float(v) for v in case["grid"]]
+    t0 = float(case["sim"]["t0"])
+    return [t0 + (g[-1] - t0) * (i + 1) / (len(g) + 2) * 0.75 for i in range(len(g) + 2)]
+
+
+def fresh_param_model(case, rec=None, prep="same"):
+    """`prep`: what the instance was used for before the dict is assigned - integrate on the case's grid ("same": also compiles
+    outside a recorded run), on a grid of another length ("other"), or nothing at all ("none": never integrated)"""
     model = pymodel.build(case["spec"], backend="lambda")
     model.parameters = {k: float(v) for k, v in case["params"].items()}
     model.initial_values = (np.array(case["x0"], float), np.float64(case["sim"]["t0"]))
-    quiet(model.integrate, np.array(case["grid"], float))      # compile now (sympy), outside every recorded run
+    if prep == "same":
+        quiet(model.integrate, np.array(case["grid"], float))      # compile now (sympy), outside every recorded run
+    elif prep == "other":
+        quiet(model.integrate, np.array(other_grid(case), float))
     model.parameters = build_pdict(case["pdict"], rec)
     return model
 
 
-def param_call(model, case, which, seed, full=True):
-    np.random.seed(seed)
+def grid_arg(case, form=None):
+    g = [float(v) for v in case["grid"]]
+    form = form or case.get("grid_form") or "array"
+    return {"array": lambda: np.array(g, float), "list": lambda: list(g), "tuple": lambda: tuple(g)}[form]()
+
+
+def param_call(model, case, which, seed, full=True, reseed=True):
+    if reseed:
+        np.random.seed(seed)
     f = getattr(model, case[which]["entry"])
-    return quiet(f, np.array(case["grid"], float), case[which]["n"], parallel=False, full_output=full)
+    return Res(quiet(f, grid_arg(case), n_arg(case[which]), parallel=False, full_output=full), "%s %s, seed %s" % (which, case[which]["entry"], seed))
 
 
 def exact_mean(Yall):
@@ -830,7 +989,7 @@ def _run_param(case):
     names = [str(p) for p in mA.param_list]
     with rec:
         np.random.seed(seed)
-        O1 = quiet(getattr(mA, A["entry"]), np.array(case["grid"], float), n, parallel=False, full_output=True)
+        O1 = quiet(getattr(mA, A["entry"]), grid_arg(case), n_arg(A), parallel=False, full_output=True)
         end_state = np.random.get_state()
     if O1[1] is not None:
         tags.append("raised:" + type(O1[1]).__name__)
@@ -909,14 +1068,19 @@ def _run_param(case):
     elif finite:
         mm("schedule:shape", "%d recorded events for %d distribution-valued entries: %s" % (len(body), kk, [b[:2] for b in body[:6]]))
 
-    # ---------------- direct oracle (no Lean)
+    # ---------------- direct oracle (no Lean); every comparison is against the harness's own copy of the earlier result
+    keeper = Keeper()
+    prep = case.get("prep") or ["same", "same"]
+    tags.append("prep:%s/%s" % tuple(prep))
+
     def check_same(name, got, want, what, entry=A["entry"]):
-        if (got[1] is None) != (want[1] is None):
-            viol.append({"what": "%s: one run raised, the other did not" % name, "signature": sig(what + ":raise", entry), "detail": "%r vs %r" % (got[1], want[1])})
+        if (got.err is None) != (want.err is None):
+            viol.append({"what": "%s: one run raised, the other did not" % name, "signature": sig(what + ":raise", entry), "detail": "%r vs %r" % (got.err, want.err)})
             return False
-        if got[1] is None and not same(got[0], want[0]):
+        if got.err is None and not same(got.snap, want.snap):
             viol.append({"what": "%s: outputs differ after the same np.random.seed" % name, "signature": sig(what, entry),
-                         "detail": "seed %s: Y %s vs %s ; Y_all[0] %s vs %s" % (seed, brief(got[0][0]), brief(want[0][0]), brief(got[0][1][0]), brief(want[0][1][0]))})
+                         "detail": "seed %s (instances used before for: %s): Y %s vs %s ; Y_all[0] %s vs %s"
+                                   % (seed, prep, brief(got.out[0]), brief(want.snap[0]), brief(got.out[1][0]), brief(want.snap[1][0]))})
             return False
         return True
 
@@ -941,46 +1105,531 @@ def _run_param(case):
                              "detail": "entry %s: Y=%r, mean(Y_all)=%r (n=%d, terms %s)" % (idx, float(Yo[idx]), float(ref[idx]), nn, [float(y[idx]) for y in Yl])})
                 return
 
+    call = lambda *a_, **k_: keeper.keep(param_call(*a_, **k_))
+    O1 = keeper.keep(O1, "traced run")
     check_mean(O1, A["entry"], n)
-    mB = fresh_param_model(case)
-    O2 = param_call(mB, case, "A", seed)
-    check_same("traced run vs fresh model", O2, O1, "same-seed-differs")
-    O3 = param_call(mB, case, "A", seed)
+    mB = fresh_param_model(case, prep=prep[0])
+    O2 = call(mB, case, "A", seed)
+    check_same("traced run vs fresh model (used before for: %s)" % prep[0], O2, O1, "same-seed-differs")
+    O3 = call(mB, case, "A", seed)
     check_same("same model, second time", O3, O2, "same-seed-differs-second-call")
-    O5 = param_call(mB, case, "A", seed, full=False)
-    if O5[1] is None and O2[1] is None and not same(O5[0], O2[0][0]):
+    O5 = call(mB, case, "A", seed, full=False)
+    if O5.err is None and O2.err is None and not same(O5.out, O2.snap[0]):
         viol.append({"what": "full_output=False does not return the mean of the full_output=True run of the same seed",
-                     "signature": sig("full-output-differs"), "detail": "%s vs %s" % (brief(O5[0]), brief(O2[0][0]))})
-    O4 = param_call(mB, case, "A", case["seed2"])
+                     "signature": sig("full-output-differs"), "detail": "%s vs %s" % (brief(O5.out), brief(O2.snap[0]))})
+    O4 = call(mB, case, "A", case["seed2"])
     check_mean(O4, A["entry"], n)
     if sensitive and finite:
         tags.append("different-seed-checked")
-        if O4[1] is None and O2[1] is None and same(O4[0][1], O2[0][1]):
+        if O4.err is None and O2.err is None and same(O4.out[1], O2.snap[1]):
             viol.append({"what": "two different seeds give identical runs", "signature": sig("different-seed-same"),
-                         "detail": "seeds %s and %s: Y_all[0] %s" % (seed, case["seed2"], brief(O2[0][1][0]))})
+                         "detail": "seeds %s and %s: Y_all[0] %s" % (seed, case["seed2"], brief(O2.snap[1][0]))})
 
     def seq(model, first_seed):
-        a = param_call(model, case, "A", first_seed)
-        f = getattr(model, B["entry"])
-        b = quiet(f, np.array(case["grid"], float), B["n"], parallel=False, full_output=True)
-        return a, b
+        a_ = call(model, case, "A", first_seed)
+        b_ = call(model, case, "B", None, reseed=False)
+        return a_, b_
     a1, b1 = seq(mB, seed)
     a2, b2 = seq(mB, seed)
     check_mean(b1, B["entry"], B["n"])
     check_same("seed; A; B (A, first time)", a1, O2, "history:A-after-earlier-runs")
     if check_same("seed; A; B repeated (A)", a2, a1, "history:sequence-A"):
         check_same("seed; A; B repeated (B)", b2, b1, "history:sequence-B", B["entry"])
-    mC = fresh_param_model(case)
-    param_call(mC, case, "B", case["seed3"])
+    mC = fresh_param_model(case, prep=prep[1])
+    call(mC, case, "B", case["seed3"])
     a3, b3 = seq(mC, seed)
-    if check_same("fresh model after a different earlier run (A)", a3, a1, "history:after-different-run-A"):
+    if check_same("fresh model (used before for: %s) after a different earlier run (A)" % prep[1], a3, a1, "history:after-different-run-A"):
         check_same("fresh model after a different earlier run (B)", b3, b1, "history:after-different-run-B", B["entry"])
+    keeper.check(viol, sig("result-overwritten"))
     return {"nontrivial": bool(sensitive and finite), "mismatches": mism, "violations": viol, "tags": tags,
             "sample": {"kind": "param", "spec": spec, "x0": case["x0"], "params": case["params"], "pdict": case["pdict"],
                        "A": A, "B": B, "grid": case["grid"], "recorded_draws": len(body)}}
 
 
+# ----------------------------------------------------------------------------- HIST: "seed; target call" after different histories
+# A case names a TARGET (configuration + one call + seed) and a list of INSTANCES, each with constructor forms and a list of
+# histories.  The reference instance is built plainly and makes "seed; target call" once.  Every other instance runs its
+# histories one after the other; each history ends in the target configuration (the generator appends the assignments that
+# restore it, in some accepted form) and is followed by "seed; target call" twice.  Oracle: every such output equals the
+# reference's (values; the dtype of the state rows follows the form of x0) and the repetition (bitwise).
+HIST_STOCH_KINDS = ["forms", "forms", "other_iv", "other_run", "same_call_other_seed", "tau_config", "params", "pdict_vs_numbers", "sibling",
+                    "determ", "deepcopy"]
+HIST_PARAM_KINDS = ["fresh", "integrate_same", "integrate_other", "integrate_other", "same_entry_other_grid", "same_entry_other_grid",
+                    "same_entry_other_n", "other_entry", "stoch_run", "numbers_then_pdict", "other_pdict", "other_iv", "sibling", "deepcopy"]
+PARAM_FORMS = ["dict"] + list(SC.PARAM_FORMS)
+
+
+def _iv_op(r, x0, t0, nS, x0_form=None):
+    forms = X0_FORMS + (["scalar"] if nS == 1 else [])
+    return {"op": "set_iv", "x0": [int(v) for v in x0], "t0": float(t0), "x0_form": x0_form or r.choice(forms), "t0_form": r.choice(T0_FORMS),
+            "via": r.choice(["values", "values", "separate"])}
+
+
+def _restore_ops(r, c, *, iv=False, params=False, tau=False):
+    """assignments that put an instance back into the target configuration (other objects, possibly other forms)"""
+    ops = []
+    if tau:
+        ops += [{"op": "set_pre_tau", "value": c["sim"].get("pre_tau")}, {"op": "set_epsilon", "value": c["sim"].get("epsilon") if c["sim"].get("epsilon") is not None else 0.03}]
+    if params:
+        ops.append({"op": "set_params", "params": dict(c["params"]), "form": r.choice(PARAM_FORMS)})
+        if c.get("pdict"):
+            ops.append({"op": "set_pdict", "pdict": c["pdict"]})
+    if iv:
+        ops.append(_iv_op(r, c["x0"], c["sim"]["t0"], len(c["x0"])))
+    return ops
+
+
+def _some_stoch_call(r, c, exact=None):
+    t0, T = c["sim"]["t0"], c["sim"]["T"]
+    time = SC.gen_grid_time(r, t0, T, max_points=5) if r.random() < 0.4 else SC.gen_scalar_time(r, t0 + (T - t0) * r.choice([0.5, 1.0]), kinds=("float", "np_f64", "list1", "tuple1"))
+    return {"op": "stoch_call", "time": time, "n": r.randint(1, 2), "exact": (r.random() < 0.5) if exact is None else exact, "seed": r.randrange(2 ** 31)}
+
+
+def _other_pdict(r, c):
+    return gen_pdict(r, c["meta"]["params"], {k: float(v) * r.choice([0.5, 2.0]) for k, v in c["params"].items()}, r.choice(["frozen", "tuple", "mixed"]))
+
+
+def _sibling_op(r, c, other=None):
+    op = {"op": "sibling", "x0": SC.alt_x0(r, c["x0"]), "params": {p: float(v) * r.choice([0.5, 2.0]) for p, v in c["params"].items()},
+          "t0": c["sim"]["t0"], "pre_tau": r.choice([None, 0.5]), "epsilon": r.choice([None, 0.3]), "exact": r.random() < 0.5,
+          "x0_form": r.choice(["arr_int", "arr_f64", "list_float"]), "time": {"kind": "float", "values": [c["sim"]["T"]]}, "np_seed": r.randrange(2 ** 31)}
+    if other is not None:
+        op["case"] = {"spec": other["spec"], "meta": other["meta"], "x0": other["x0"], "params": other["params"]}
+        op["x0"], op["params"] = other["x0"], other["params"]
+    return op
+
+
+def gen_history_stoch(r, c, kind, sib):
+    nS = len(c["x0"])
+    t0, T = c["sim"]["t0"], c["sim"]["T"]
+    if kind == "forms":
+        floaty = r.random() < 0.6
+        return _restore_ops(r, c, iv=True) if not floaty else [_iv_op(r, c["x0"], t0, nS, x0_form=r.choice(["arr_f64", "list_float", "tuple_float"]))]
+    if kind == "other_iv":
+        t_alt = t0 + 1.0 if (r.random() < 0.4 and T - t0 > 2.5) else t0
+        return [_iv_op(r, SC.alt_x0(r, c["x0"]), t_alt, nS), _some_stoch_call(r, c)] + _restore_ops(r, c, iv=True)
+    if kind == "other_run":
+        return [_some_stoch_call(r, c) for _ in range(r.randint(1, 2))]
+    if kind == "same_call_other_seed":
+        return [dict(c["target"], op="stoch_call", seed=r.randrange(2 ** 31))]
+    if kind == "tau_config":
+        tot = max(c["tot0"], 1e-3)
+        return [{"op": "set_pre_tau", "value": float(min(r.choice([0.3, 1, 2, 5]) / tot, T - t0))}, {"op": "set_epsilon", "value": r.choice([0.01, 0.1, 0.3])},
+                _some_stoch_call(r, c, exact=False)] + _restore_ops(r, c, tau=True)
+    if kind == "params":
+        first = ({"op": "set_pdict", "pdict": _other_pdict(r, c)} if c.get("pdict") and r.random() < 0.5 else
+                 {"op": "set_params", "params": {p: float(v) * r.choice([0.5, 2.0]) for p, v in c["params"].items()}, "form": r.choice(PARAM_FORMS)})
+        return [first, _some_stoch_call(r, c)] + _restore_ops(r, c, params=True)
+    if kind == "pdict_vs_numbers":
+        # a dict with distributions assigned and used, then replaced by plain numbers (fix cc23e1d: numbers clear the record) - or,
+        # when the target itself has distributions, plain numbers used first
+        if c.get("pdict"):
+            first = {"op": "set_params", "params": {p: float(v) * r.choice([0.5, 2.0]) for p, v in c["params"].items()}, "form": r.choice(PARAM_FORMS)}
+        else:
+            first = {"op": "set_pdict", "pdict": _other_pdict(r, c)}
+        mid = r.choice([_some_stoch_call(r, c), {"op": "integrate", "grid": [t0 + (T - t0) * (i + 1) / 3 for i in range(3)]}])
+        return [first, mid] + _restore_ops(r, c, params=True)
+    if kind == "sibling":
+        return [_sibling_op(r, c, sib if r.random() < 0.5 else None)]
+    if kind == "determ":
+        g = [t0 + (T - t0) * (i + 1) / 4 for i in range(4)]
+        if c.get("pdict") and r.random() < 0.6:
+            return [{"op": "param_call", "entry": r.choice(["simulate_param", "solve_determ"]), "grid": g, "n": r.randint(1, 2), "seed": r.randrange(2 ** 31)}]
+        return [{"op": "integrate", "grid": g}]
+    if kind == "deepcopy":
+        return [_some_stoch_call(r, c), {"op": "deepcopy"}]
+    raise ValueError(kind)
+
+
+def gen_hist_stoch(r, budget):
+    base = SC.gen_sim_case(r, max_x0=25)
+    sib = SC.gen_sim_case(r, max_x0=25)
+    if base is None:
+        return None
+    mode = r.choice(["exact", "exact", "exact", "tau_adaptive", "tau_fixed", "tau_fixed"])
+    c = dict(base)
+    c["kind"], c["entry"] = "hist", "stoch"
+    c["sim"] = SC.sim_settings(r, base, mode, big_tau=(mode == "tau_fixed" and r.random() < 0.7), steps=[5, 10, 20] if mode == "tau_adaptive" else [15, 25, 40])
+    t0, T = c["sim"]["t0"], c["sim"]["T"]
+    time = SC.gen_grid_time(r, t0, T, max_points=6, after_t0=0.0, past=(1, 1, 1.5)) if r.random() < 0.3 else \
+        SC.gen_scalar_time(r, T, kinds=("float", "float", "np_f64", "list1", "tuple1", "int"))
+    c["target"] = {"time": time, "n": r.randint(1, 4), "n_form": r.choice(["int", "int", "np_i64"]), "exact": mode == "exact", "seed": c["sim"]["np_seed"]}
+    c["pdict"] = gen_pdict(r, base["meta"]["params"], base["params"], r.choice(["frozen", "tuple", "mixed"])) if r.random() < 0.25 else None
+    c["max_steps"] = budget.get("max_steps", SC.MAX_STEPS)
+    kinds = [k for k in HIST_STOCH_KINDS]
+    inst = []
+    # instance 1: constructor forms only (float forms half of the time) + one history; instance 2: plain constructor, 2-3 histories in a row
+    inst.append({"x0_form": r.choice(X0_FORMS + (["scalar"] if len(c["x0"]) == 1 else [])), "t0_form": r.choice(T0_FORMS),
+                 "histories": [{"kind": k, "ops": gen_history_stoch(r, c, k, sib)} for k in [r.choice(["none", "other_run", "same_call_other_seed", "tau_config"])] if k != "none"] or [{"kind": "ctor_forms", "ops": []}]})
+    ks = [r.choice(kinds) for _ in range(r.randint(2, 3))]
+    inst.append({"x0_form": r.choice(["arr_int", "arr_f64", "list_float"]), "t0_form": "np_f64",
+                 "histories": [{"kind": k, "ops": gen_history_stoch(r, c, k, sib)} for k in ks]})
+    c["instances"] = inst
+    return c
+
+
+def gen_history_param(r, c, kind, sib):
+    t0, T = c["sim"]["t0"], c["sim"]["T"]
+    A = c["target"]
+    og = other_grid(c)
+    other_entry = "solve_determ" if A["entry"] == "simulate_param" else "simulate_param"
+    pc = lambda entry, grid, n: {"op": "param_call", "entry": entry, "grid": list(grid), "n": n, "seed": r.randrange(2 ** 31), "full": r.random() < 0.7}
+    if kind == "fresh":
+        return []
+    if kind == "integrate_same":
+        return [{"op": "integrate", "grid": list(c["grid"])}]
+    if kind == "integrate_other":
+        return [{"op": "integrate", "grid": og if r.random() < 0.7 else og[:max(1, len(c["grid"]) - 1)]}]
+    if kind == "same_entry_other_grid":
+        return [pc(A["entry"], og if r.random() < 0.6 else list(c["grid"])[:-1] or og, r.randint(1, 3))]
+    if kind == "same_entry_other_n":
+        return [pc(A["entry"], c["grid"], r.choice([k for k in range(1, 7) if k != A["n"]]))]
+    if kind == "other_entry":
+        return [pc(other_entry, c["grid"] if r.random() < 0.5 else og, r.randint(1, 3))]
+    if kind == "stoch_run":
+        return [_some_stoch_call(r, c)]
+    if kind == "numbers_then_pdict":
+        return [{"op": "set_params", "params": {p: float(v) * r.choice([0.5, 2.0]) for p, v in c["params"].items()}, "form": r.choice(PARAM_FORMS)},
+                {"op": "integrate", "grid": og}] + _restore_ops(r, c, params=True)
+    if kind == "other_pdict":
+        return [{"op": "set_pdict", "pdict": _other_pdict(r, c)}, pc(r.choice([A["entry"], other_entry]), r.choice([c["grid"], og]), r.randint(1, 2))] + _restore_ops(r, c, params=True)
+    if kind == "other_iv":
+        return [_iv_op(r, SC.alt_x0(r, c["x0"]), t0, len(c["x0"])), {"op": "integrate", "grid": og}] + _restore_ops(r, c, iv=True)
+    if kind == "sibling":
+        return [_sibling_op(r, c, sib if r.random() < 0.5 else None)]
+    if kind == "deepcopy":
+        return [{"op": "integrate", "grid": og}, {"op": "deepcopy"}]
+    raise ValueError(kind)
+
+
+def gen_hist_param(r, budget):
+    base = SC.gen_sim_case(r, max_x0=25)
+    sib = SC.gen_sim_case(r, max_x0=25)
+    if base is None:
+        return None
+    c = dict(base)
+    c["kind"], c["entry"] = "hist", "param"
+    c["sim"] = SC.sim_settings(r, base, "exact", steps=[20, 40])
+    t0, T = c["sim"]["t0"], c["sim"]["T"]
+    k = r.randint(2, 8)
+    c["grid"] = [t0 + (T - t0) * (i + 1) / k for i in range(k)]
+    c["pdict"] = gen_pdict(r, base["meta"]["params"], base["params"], r.choice(["frozen", "tuple", "mixed"]))
+    c["target"] = {"entry": r.choice(["simulate_param", "solve_determ"]), "n": r.randint(1, 5), "n_form": r.choice(["int", "int", "np_i64"]),
+                   "seed": c["sim"]["np_seed"]}
+    c["max_steps"] = 60
+    grid_forms = ["array", "list", "tuple"]
+    inst = []
+    # instance 1: never integrated before the seeded call ("fresh") or used once; instance 2: 2-3 histories in a row
+    k1 = r.choice(["fresh", "integrate_other", "same_entry_other_grid", "other_entry"])
+    inst.append({"prep": "none", "grid_form": r.choice(grid_forms), "histories": [{"kind": k1, "ops": gen_history_param(r, c, k1, sib)}]})
+    ks = [r.choice(HIST_PARAM_KINDS[1:]) for _ in range(r.randint(2, 3))]
+    inst.append({"prep": r.choice(["none", "same", "other"]), "grid_form": r.choice(grid_forms),
+                 "histories": [{"kind": k_, "ops": gen_history_param(r, c, k_, sib)} for k_ in ks]})
+    c["instances"] = inst
+    return c
+
+
+assign_params = SC.assign_params
+
+
+def record_of(model):
+    """`_stochasticParam` in the vocabulary of the Lean model: None or [[index, value | None], ...] in dict order"""
+    rec = getattr(model, "_stochasticParam", None)
+    if rec is None:
+        return None
+    from numbers import Number
+    return [[pidx(model, str(k)), SC.q(v) if isinstance(v, Number) else None] for k, v in rec.items()]
+
+
+class SetterTie:
+    """every assignment to `parameters` made by a history, replayed through the Lean setter model (`Seed.setParams`)"""
+
+    def __init__(self, model):
+        self.start = {"rec": record_of(model), "cur": [SC.q(v) for v in model._paramValue]}
+        self.ops, self.obs = [], []
+
+    def reset(self, model):
+        self.__init__(model)
+
+    def before(self, model):
+        """the values in force before an assignment (runs made since the last one have redrawn some of them)"""
+        self.cur_before = [SC.q(v) for v in model._paramValue]
+
+    def after_dict(self, model, desc):
+        spec = spec_json(model, desc)
+        vals = [SC.q(model._paramValue[i]) for i, v in spec if v is None]
+        self.ops.append({"dict": spec, "vals": vals, "cur": self.cur_before})
+        self.obs.append((record_of(model), [SC.q(v) for v in model._paramValue]))
+
+    def after_numbers(self, model, params, form):
+        names = [str(p) for p in model.param_list]
+        if form in ("list", "array", "tuples"):
+            self.ops.append({"all": [SC.q(float(params[nm])) for nm in names], "cur": self.cur_before})
+            self.obs.append((record_of(model), [SC.q(v) for v in model._paramValue]))
+        elif form == "two_dicts" and len(params) > 1:
+            ks = list(params)
+            self.ops.append({"dict": [[names.index(k), SC.q(float(params[k]))] for k in ks[:len(ks) // 2]], "vals": [], "cur": self.cur_before})
+            self.obs.append(None)
+            self.ops.append({"dict": [[names.index(k), SC.q(float(params[k]))] for k in ks[len(ks) // 2:]], "vals": []})
+            self.obs.append((record_of(model), [SC.q(v) for v in model._paramValue]))
+        else:
+            self.ops.append({"dict": [[names.index(k), SC.q(float(v))] for k, v in params.items()], "vals": [], "cur": self.cur_before})
+            self.obs.append((record_of(model), [SC.q(v) for v in model._paramValue]))
+
+    def judge(self, mism, tags):
+        if not self.ops:
+            return
+        r = leanio.driver().call({"op": "seed_setter", "rec": self.start["rec"], "cur": self.start["cur"], "ops": self.ops})
+        tags.append("setter-tie")
+        for k, (stp, ob) in enumerate(zip(r["steps"], self.obs)):
+            if ob is None:
+                continue
+            lrec = stp["rec"]
+            lrec = None if lrec is None else [[int(i), v] for i, v in lrec]
+            orec = None if ob[0] is None else [[int(i), v] for i, v in ob[0]]
+            same_rec = (lrec is None) == (orec is None) and (lrec is None or (len(lrec) == len(orec) and all(
+                a[0] == b[0] and (a[1] is None) == (b[1] is None) and (a[1] is None or Fraction(a[1]) == Fraction(b[1])) for a, b in zip(lrec, orec))))
+            if not same_rec:
+                mism.append({"what": "setter:record", "detail": "assignment %d (%s): the Lean setter records %s, pygom's _stochasticParam is %s" % (k, list(self.ops[k])[0], lrec, orec)})
+                return
+            if [Fraction(v) for v in stp["cur"]] != [Fraction(v) for v in ob[1]]:
+                mism.append({"what": "setter:values", "detail": "assignment %d: Lean %s pygom %s" % (k, stp["cur"], ob[1])})
+                return
+
+
+class HistInstance:
+    """one live model going through the ops of its histories"""
+
+    def __init__(self, case, x0_form=None, t0_form=None, prep=None, tags=None):
+        sim = dict(case["sim"], x0_form=x0_form, t0_form=t0_form)
+        self.case, self.tags = case, tags if tags is not None else []
+        self.detached = False
+        self.model = SC.build_model(dict(case, sim=sim))
+        self.handed = [(self.model._verif_x0_arg, copy.deepcopy(self.model._verif_x0_arg))]
+        if prep == "same":
+            quiet(self.model.integrate, np.array(case["grid"], float))
+        elif prep == "other":
+            quiet(self.model.integrate, np.array(other_grid(case), float))
+        self.tie = SetterTie(self.model)
+        if case.get("pdict"):
+            self.tie.before(self.model)
+            self.model.parameters = build_pdict(case["pdict"])
+            self.tie.after_dict(self.model, case["pdict"])
+
+    def stoch(self, d, seed, reseed=True, full=True):
+        m = self.model
+        with caps(m, bool(d["exact"]), self.case.get("max_steps", SC.MAX_STEPS)):
+            if reseed:
+                np.random.seed(seed)
+            return Res(quiet(m.solve_stochast, SC.time_obj(d["time"]), n_arg(d), parallel=False, exact=bool(d["exact"]), full_output=full),
+                       "solve_stochast(%s, n=%s, exact=%s), seed %s" % (d["time"]["kind"], d["n"], d["exact"], seed))
+
+    def param(self, entry, grid, n, seed, full=True, form="array", n_form="int"):
+        np.random.seed(seed)
+        g = {"array": lambda: np.array(grid, float), "list": lambda: [float(v) for v in grid], "tuple": lambda: tuple(float(v) for v in grid)}[form]()
+        return Res(quiet(getattr(self.model, entry), g, np.int64(n) if n_form == "np_i64" else int(n), parallel=False, full_output=full),
+                   "%s(grid of %d, n=%s), seed %s" % (entry, len(grid), n, seed))
+
+    def run_op(self, op):
+        k, m = op["op"], self.model
+        self.tags.append("op:" + k)
+        if k == "set_iv":
+            x0_arg, t0_arg = SC.make_x0(op["x0"], op.get("x0_form")), SC.make_t0(op["t0"], op.get("t0_form"))
+            if op.get("via") == "separate":
+                m.initial_state = x0_arg; m.initial_time = t0_arg
+            else:
+                m.initial_values = (x0_arg, t0_arg)
+            self.handed.append((x0_arg, copy.deepcopy(x0_arg)))
+            self.tags.append("x0_form:" + str(op.get("x0_form")))
+        elif k == "set_pre_tau":
+            m.pre_tau = op["value"]
+        elif k == "set_epsilon":
+            m._epsilon = op["value"]
+        elif k == "set_params":
+            self.tie.before(m)
+            form = assign_params(m, op["params"], op.get("form", "dict"))
+            self.tie.after_numbers(m, op["params"], form)
+            self.tags.append("params_form:" + form)
+        elif k == "set_pdict":
+            self.tie.before(m)
+            m.parameters = build_pdict(op["pdict"])
+            self.tie.after_dict(m, op["pdict"])
+        elif k == "stoch_call":
+            return self.stoch(op, op.get("seed", 0), full=op.get("full", True))
+        elif k == "param_call":
+            return self.param(op["entry"], op["grid"], op["n"], op.get("seed", 0), full=op.get("full", True))
+        elif k == "integrate":
+            np.random.seed(op.get("seed", 1))
+            return Res(quiet(m.integrate, np.array(op["grid"], float)), "integrate")
+        elif k == "sibling":
+            SC.run_sibling(op, self.case)
+        elif k == "deepcopy":
+            self.model = copy.deepcopy(m)
+            self.tie.reset(self.model)
+            sp = getattr(self.model, "_stochasticParam", None)
+            if isinstance(sp, dict) and any(hasattr(v, "dist") and getattr(v, "random_state", None) is not np.random.mtrand._rand for v in sp.values()):
+                # scipy's frozen distributions hold a reference to numpy's global generator object; a deep copy gets a private
+                # duplicate that np.random.seed does not reach (recorded defect, proposed_fixes/C16-deepcopy-frozen-distribution.diff)
+                self.detached = True
+                self.tags.append("deepcopy:frozen-distribution-detached-from-global-generator")
+        else:
+            raise ValueError("unknown history op %r" % k)
+        return None
+
+    def inputs_modified(self):
+        return any(not SC._same_obj(a, b) for a, b in self.handed)
+
+
+def run_hist(case):
+    del WARNED[:]
+    entry = case["entry"]
+    tags, mism, viol = ["hist", "hist:" + entry], [], []
+    tg = case["target"]
+    seed = tg["seed"]
+    keeper = Keeper()
+    pform = "fixed-params" if not case.get("pdict") else "stoch-params:" + "+".join(sorted(set(e["kind"] for e in case["pdict"] if e["kind"] != "fixed")))
+    if entry == "stoch":
+        modek = "exact" if tg["exact"] else "tau"
+        sig = lambda what, hk: "C16:solve_stochast:history:%s:%s:%s:%s" % (hk, what, modek, pform)
+        tags += ["mode:" + case["sim"]["mode"], "time:" + tg["time"]["kind"], pform.split(":")[0]]
+        target = lambda inst, **k: inst.stoch(tg, seed)
+    else:
+        sig = lambda what, hk: "C16:%s:history:%s:%s:%s" % (tg["entry"], hk, what, pform)
+        tags += ["entry:" + tg["entry"], pform.split(":")[0]]
+        # the property presupposes a deterministic integrator (see _run_param)
+        bound = 1e4 * (1.0 + max(abs(float(v)) for v in case["x0"]))
+        m0 = pymodel.build(case["spec"], backend="lambda")
+        m0.initial_values = (np.array(case["x0"], float), np.float64(case["sim"]["t0"]))
+        m0.parameters = {k: 1.3 * float(v) for k, v in case["params"].items()}
+        try:
+            from ..runner import time_limit, CaseTimeout
+            with time_limit(5):
+                sol0, err0 = quiet(m0.integrate, np.array(case["grid"], float))
+        except CaseTimeout:
+            sol0, err0 = None, "slow"
+        if err0 is not None or not np.all(np.isfinite(sol0)) or float(np.max(np.abs(sol0))) > bound:
+            return {"nontrivial": False, "mismatches": [], "violations": [], "tags": tags + ["unstable-integration-skipped"]}
+        target = lambda inst, form="array": inst.param(tg["entry"], case["grid"], tg["n"], seed, form=form, n_form=tg.get("n_form", "int"))
+
+    ref_inst = HistInstance(case, prep="same" if entry == "param" else None, tags=[])
+    ref = keeper.keep(target(ref_inst))
+    nontrivial = ref.err is None
+    if entry == "param" and ref.err is None:
+        Yl = [np.asarray(y, float) for y in ref.out[1]]
+        if not all(np.all(np.isfinite(y)) for y in Yl) or max(float(np.max(np.abs(y))) for y in Yl) > bound:
+            return {"nontrivial": False, "mismatches": [], "violations": [], "tags": tags + ["unstable-integration-skipped"]}
+        nontrivial = any(not np.array_equal(Yl[0], y) for y in Yl[1:]) or len(Yl) == 1
+    if entry == "stoch" and ref.err is None:
+        nontrivial = max(len(np.atleast_1d(t)) for t in (ref.out[2] if isinstance(ref.out[2], list) else [ref.out[2]])) >= 3 and \
+            sum(int(np.asarray(j).sum()) for j in ref.out[1]) >= 5
+
+    def compare(name, got, want, hk, what, values_only, inst=None):
+        if inst is not None and inst.detached:
+            hk, what = "deepcopy", "frozen-distribution-detached-from-global-seed"
+        if (got.err is None) != (want.err is None) or (got.err is not None and type(got.err) is not type(want.err)):
+            viol.append({"what": "%s: one call raised, the other did not" % name, "signature": sig(what + ":raise", hk), "detail": "%r vs %r" % (got.err, want.err)})
+            return False
+        eq = same_values if values_only else same
+        if got.err is None and not eq(got.snap, want.snap):
+            viol.append({"what": "%s: outputs differ after the same np.random.seed" % name, "signature": sig(what, hk),
+                         "detail": "seed %s, %s: %s  vs  %s" % (seed, got.label, brief(got.out), brief(want.snap))})
+            return False
+        return True
+
+    for ii, idesc in enumerate(case["instances"]):
+        inst = HistInstance(case, x0_form=idesc.get("x0_form"), t0_form=idesc.get("t0_form"), prep=idesc.get("prep"), tags=tags)
+        tags.append("x0_form:" + str(idesc.get("x0_form")))
+        ok = True
+        for h in idesc["histories"]:
+            hk = h["kind"]
+            tags.append("history:" + hk)
+            for op in h["ops"]:
+                out = inst.run_op(op)
+                if out is not None:
+                    keeper.keep(out)
+            kw = {"form": idesc.get("grid_form", "array")} if entry == "param" else {}
+            r1 = keeper.keep(target(inst, **kw))
+            ok = compare("instance %d after history '%s' vs reference instance" % (ii, hk), r1, ref, hk, "differs-from-reference", True, inst)
+            r2 = keeper.keep(target(inst, **kw))
+            ok = compare("instance %d after history '%s': second seeded call vs first" % (ii, hk), r2, r1, hk, "second-call-differs", False, inst) and ok
+            if not ok:
+                break
+        inst.tie.judge(mism, tags)
+        if inst.inputs_modified():
+            tags.append("input-modified:x0")
+    keeper.check(viol, sig("result-overwritten", "any"))
+    if entry == "param":
+        bad = sorted(set(w for w in WARNED if w in ("ODEintWarning", "RuntimeWarning")))
+        if bad:
+            return {"nontrivial": False, "mismatches": [], "violations": [], "tags": ["hist", "unstable-integration-skipped"] + ["warned:" + b for b in bad]}
+    return {"nontrivial": bool(nontrivial), "mismatches": mism, "violations": viol, "tags": tags,
+            "sample": {"kind": "hist", "entry": entry, "spec": case["spec"], "x0": case["x0"], "params": case["params"], "pdict": case.get("pdict"),
+                       "target": tg, "instances": [{k: v for k, v in i.items() if k != "histories"} | {"histories": [h["kind"] for h in i["histories"]]} for i in case["instances"]]}}
+
+
+# ----------------------------------------------------------------------------- SESSION: the shared session engine, judged by C16
+def gen_session_case(r, budget):
+    base = SC.gen_sim_case(r, max_x0=25)
+    sib = SC.gen_sim_case(r, max_x0=25)
+    if base is None:
+        return None
+    c = dict(base)
+    c["kind"] = "session"
+    c["sim"] = SC.sim_settings(r, base, r.choice(["exact", "tau_adaptive", "tau_fixed"]), steps=[15, 25, 40])
+    c["sim"]["x0_form"] = r.choice(X0_FORMS)
+    c["sim"]["t0_form"] = r.choice(T0_FORMS)
+    c["session"] = SC.gen_session(r, base, c["sim"], grid_share=0.3, exact_share=0.6, runs=(2, 4), sibling_base=sib)
+    runs = [i for i, o in enumerate(c["session"]) if o["op"] == "run"]
+    for i in runs:
+        if r.random() < 0.5:
+            c["session"][i]["fresh_ref"] = True
+    c["max_steps"] = budget.get("max_steps", SC.MAX_STEPS)
+    return c
+
+
+def run_session_case(case):
+    tags, mism, viol = ["session-case"], [], []
+    state = {"accepted": 0}
+
+    def judge(call, model):
+        tr = call.tr
+        tags.append("mode:" + call.sim["mode"])
+        if tr.error is None and tr.result is not None:
+            state["accepted"] = max([state["accepted"]] + [len(j["T"]) - 1 for j in tr.jumps])
+        return tr.error is None
+
+    side_mism = []
+    calls = SC.run_session(case, judge, "C16", tags, side_mism, viol, max_steps=case.get("max_steps", SC.MAX_STEPS))
+    # the engine's probes of the pure model stay what they are (tags + broken correspondence); "a repeated call / a fresh instance
+    # reproduces a call under the same seed" is THIS property's statement: judged here, against the engine's own copies
+    mism += side_mism
+    by_index = {c.index: c for c in calls}
+    for c in calls:
+        if c.tr.result is None:
+            continue
+        mode = c.sim["mode"].split("_")[0]
+        first = by_index.get(c.op.get("repeat_of")) if c.op.get("repeat_of") is not None else None
+        if first is not None and first.tr.result is not None:
+            ok = len(first.snap) == len(c.snap) and all(a.shape == b.shape and np.array_equal(a, b) for a, b in zip(first.snap, c.snap))
+            if not ok:
+                viol.append({"what": "a call repeated with the first call's configuration, initial values, horizon and seed returns other outputs",
+                             "signature": "C16:solve_stochast:session:repeat-differs:%s" % mode,
+                             "detail": "op %d vs op %d, seed %s, x0 handed over as %s then %s: %s vs %s" % (first.index, c.index, c.op["np_seed"], first.sim["x0_form"], c.sim["x0_form"],
+                                                                                                 brief(first.snap[:2]), brief(c.snap[:2]))})
+        fresh = getattr(c, "fresh_result", None)
+        if fresh is not None:
+            fl = [np.asarray(a) for a in SC._flatten_result(fresh)]
+            ok = len(fl) == len(c.snap) and all(a.shape == b.shape and np.array_equal(a, b) for a, b in zip(fl, c.snap))
+            if not ok:
+                viol.append({"what": "a freshly built model with the same configuration, initial values, horizon and seed returns other outputs than the instance with a history",
+                             "signature": "C16:solve_stochast:session:fresh-differs:%s" % mode,
+                             "detail": "op %d, seed %s, x0 handed over as %s: %s vs fresh %s" % (c.index, c.op["np_seed"], c.sim["x0_form"], brief(c.snap[:2]), brief(fl[:2]))})
+    return {"nontrivial": state["accepted"] >= 5 and len(calls) >= 2, "mismatches": mism, "violations": viol, "tags": tags,
+            "sample": {"kind": "session", "spec": case["spec"], "x0": case["x0"], "params": case["params"], "sim": case["sim"], "session": case["session"]}}
+
+
 def run_case(case):
-    r = run_stoch(case) if case["kind"] == "stoch" else run_param(case)
+    k = case["kind"]
+    r = {"stoch": run_stoch, "param": run_param, "hist": run_hist, "session": run_session_case}[k](case)
     r["tags"] = sorted(set(r["tags"]))
     return r
